@@ -27,10 +27,10 @@ def origin_keys(F, expr, dictvar, depth=0, seen=None):
     for n in ast.walk(expr):
         if isinstance(n, ast.Call) and isinstance(n.func, ast.Attribute) and n.func.attr == 'strip':
             stripped = True
-        if isinstance(n, ast.Call) and isinstance(n.func, ast.Attribute) and n.func.attr == 'get' and isinstance(strip_cast(n.func.value), ast.Name) \
-                and strip_cast(n.func.value).id == dictvar and n.args and q.const_str(n.args[0]) is not None:
+        if isinstance(n, ast.Call) and isinstance(n.func, ast.Attribute) and n.func.attr == 'get' and q.unparse(strip_cast(n.func.value)) == dictvar \
+                and n.args and q.const_str(n.args[0]) is not None:
             keys.add(q.const_str(n.args[0]))
-        if isinstance(n, ast.Subscript) and isinstance(strip_cast(n.value), ast.Name) and strip_cast(n.value).id == dictvar and q.const_str(n.slice) is not None:
+        if isinstance(n, ast.Subscript) and q.unparse(strip_cast(n.value)) == dictvar and q.const_str(n.slice) is not None:
             keys.add(q.const_str(n.slice))
         if isinstance(n, ast.Name) and n.id != dictvar and n.id not in seen and depth < 5:
             seen.add(n.id)
@@ -89,7 +89,17 @@ def io_names(run, r):
         return out[0] if out else None
     ti = run.fn('_import_transition_from_dict')
     td = q.param_names(ti.node)[1]
-    return {'data': data, 'tdata': tdata, 'state': state_v[0], 'transition': trans_v[0], 'statechart': q.param_names(X)[0], 'xprio': prio, 'd': d, 'sdata': sdata, 'work': work,
+    # dict variable of the statechart level in import_from_dict: the name bound to <param>['statechart']
+    ip = q.param_names(I)[0]
+    scdata = ip
+    for st in q.walk(I, False):
+        if isinstance(st, ast.Assign) and isinstance(st.targets[0], ast.Name) and isinstance(strip_cast(st.value), ast.Subscript) \
+                and q.unparse(strip_cast(st.value).value) == ip and q.const_str(strip_cast(st.value).slice) == 'statechart':
+            scdata = st.targets[0].id
+    if scdata == ip and any(isinstance(n, ast.Subscript) and q.unparse(n) == "%s['statechart']" % ip and isinstance(getattr(n, '_parent', None), (ast.Subscript, ast.Attribute))
+                            for n in q.walk(I)):
+        scdata = "%s['statechart']" % ip      # normal form: the explanatory local was substituted
+    return {'scdata': scdata, 'data': data, 'tdata': tdata, 'state': state_v[0], 'transition': trans_v[0], 'statechart': q.param_names(X)[0], 'xprio': prio, 'd': d, 'sdata': sdata, 'work': work,
             'stype': local_from_key(S, sd, 'type'), 'substates': local_from_key(S, sd, 'states'), 'parallel': local_from_key(S, sd, 'parallel states'),
             'iprio': local_from_key(ti.node, td, 'priority'), 'sc_export': q.param_names(E)[0]}
 
@@ -97,10 +107,10 @@ def io_names(run, r):
 def keys_read_expr(expr, dv):
     out = set()
     for n in ast.walk(expr):
-        if isinstance(n, ast.Call) and isinstance(n.func, ast.Attribute) and n.func.attr == 'get' and isinstance(strip_cast(n.func.value), ast.Name) \
-                and strip_cast(n.func.value).id == dv and n.args and q.const_str(n.args[0]) is not None:
+        if isinstance(n, ast.Call) and isinstance(n.func, ast.Attribute) and n.func.attr == 'get' and q.unparse(strip_cast(n.func.value)) == dv \
+                and n.args and q.const_str(n.args[0]) is not None:
             out.add(q.const_str(n.args[0]))
-        if isinstance(n, ast.Subscript) and isinstance(strip_cast(n.value), ast.Name) and strip_cast(n.value).id == dv and q.const_str(n.slice) is not None:
+        if isinstance(n, ast.Subscript) and q.unparse(strip_cast(n.value)) == dv and q.const_str(n.slice) is not None:
             out.add(q.const_str(n.slice))
     return out
 
@@ -136,22 +146,32 @@ def export_maps(run, r, N):
                 else:
                     out[level].setdefault(k, set())
                 nodes[(level, k)] = node
-    # contract items: {'before': condition} appended inside `for condition in <preconditions>`
+    # contract items: {'before': c} built once per element c of <obj>.preconditions (loop + append, or comprehension / generator)
+    def attr_of_iter(it, before_line):
+        """Attribute of the model object an iterable denotes: getattr(x, 'attr', []) / x.attr, possibly through a local."""
+        cands = [strip_cast(it)]
+        if isinstance(cands[0], ast.Name):
+            name = cands[0].id
+            defs = [(st, v) for st, v in q.assigned_value(F, name) if st.lineno < before_line]
+            if defs:
+                cands = [strip_cast(max(defs, key=lambda t: t[0].lineno)[1])]     # reaching definition: the closest preceding assignment
+        for v in cands:
+            if isinstance(v, ast.Call) and isinstance(v.func, ast.Name) and v.func.id == 'getattr' and len(v.args) >= 2:
+                return q.const_str(v.args[1])
+            if isinstance(v, ast.Attribute):
+                return v.attr
+        return None
     for n in q.walk(F):
         if isinstance(n, ast.Dict) and len(n.keys) == 1 and q.const_str(n.keys[0]) in ('before', 'after', 'always') and isinstance(n.values[0], ast.Name):
-            lp = q.enclosing(n, ast.For)
             a = None
-            if lp is not None and isinstance(lp.target, ast.Name) and lp.target.id == n.values[0].id and isinstance(strip_cast(lp.iter), ast.Name):
-                # reaching definition: the closest preceding assignment of the iterated name
-                name = strip_cast(lp.iter).id
-                defs = [(st, v) for st, v in q.assigned_value(F, name) if st.lineno < lp.lineno]
-                if defs:
-                    st, v = max(defs, key=lambda t: t[0].lineno)
-                    v = strip_cast(v)
-                    if isinstance(v, ast.Call) and isinstance(v.func, ast.Name) and v.func.id == 'getattr' and len(v.args) >= 2:
-                        a = q.const_str(v.args[1])
-                    elif isinstance(v, ast.Attribute):
-                        a = v.attr
+            par = getattr(n, '_parent', None)
+            if isinstance(par, (ast.ListComp, ast.GeneratorExp)) and par.elt is n and len(par.generators) == 1 and not par.generators[0].ifs \
+                    and isinstance(par.generators[0].target, ast.Name) and par.generators[0].target.id == n.values[0].id:
+                a = attr_of_iter(par.generators[0].iter, n.lineno)
+            else:
+                lp = q.enclosing(n, ast.For)
+                if lp is not None and isinstance(lp.target, ast.Name) and lp.target.id == n.values[0].id and not guards(n, stop=lp):
+                    a = attr_of_iter(lp.iter, lp.lineno)
             out['contract'].setdefault(q.const_str(n.keys[0]), set()).add(a)
             nodes[('contract', q.const_str(n.keys[0]))] = n
     ei = run.fn('export_to_dict')
@@ -208,7 +228,7 @@ def import_maps(run, r):
     dv = None
     for st, v in q.assigned_value(I, q.param_names(I)[0]):
         dv = q.param_names(I)[0]
-    ctor_calls(I, q.param_names(I)[0], 'statechart')
+    ctor_calls(I, io_names(run, r)['scdata'], 'statechart')
     # contract items
     for F, level_obj in ((S, 'state'), (T, 'transition')):
         for c in q.calls(F):
@@ -283,7 +303,7 @@ def check(run):
     read = {
         'state': set(keys_read(si.node, sd)) | set(keys_read(ii.node, N['sdata'])),
         'transition': set(keys_read(ti.node, td)),
-        'statechart': set(keys_read(ii.node, q.param_names(ii.node)[0])),
+        'statechart': set(keys_read(ii.node, N['scdata'])) | set(keys_read(ii.node, q.param_names(ii.node)[0])),
     }
     cread = set()
     for F in (si.node, ti.node):
